@@ -24,7 +24,7 @@ META = {
 }
 BV_AX = [r".*\._native\.bv_decide\.ax_.*", r"Lean\.ofReduceBool", r"Lean\.trustCompiler"]
 GCC_ARGS = ["-static", "-z", "noexecstack", "-nostdlib"]          # internal/app/appnative/native_x64/build_wa_wz.go
-RUN_TIMEOUT = 120
+RUN_TIMEOUT = 600
 
 
 # ------------------------------------------------------------------------------------------------ running both ways
@@ -40,10 +40,10 @@ class Both:
         base = os.path.join(d, name)
         with open(base + ".wat", "w") as f:
             f.write(wat)
-        r = subprocess.run([self.h, "x64", base + ".wat", base + ".s"], capture_output=True, text=True, timeout=300)
+        r = subprocess.run([self.h, "x64", base + ".wat", base + ".s"], capture_output=True, text=True, timeout=900)
         if r.returncode:
             return {"stage": "wat2x64", "msg": r.stderr[-400:]}
-        r = subprocess.run(["gcc", base + ".s", "-o", base + ".exe"] + GCC_ARGS, capture_output=True, text=True, timeout=300)
+        r = subprocess.run(["gcc", base + ".s", "-o", base + ".exe"] + GCC_ARGS, capture_output=True, text=True, timeout=900)
         if r.returncode:
             bad = sorted(set(re.findall(r"Error: (.*)", r.stderr)))
             lines = [int(x) for x in re.findall(r"\.s:(\d+): Error", r.stderr)]
@@ -60,7 +60,7 @@ class Both:
 
     def run_wazero(self, watfile):
         try:
-            p = subprocess.run([self.h, "wazero", watfile], capture_output=True, timeout=120)
+            p = subprocess.run([self.h, "wazero", watfile], capture_output=True, timeout=900)     # generous: the machine may be heavily loaded
         except subprocess.TimeoutExpired as e:
             return {"st": "timeout", "out": (e.stdout or b"").decode("latin1")}
         err = p.stderr.decode("latin1").strip().splitlines()
@@ -287,7 +287,7 @@ def prove_many(ctx, modules, required, allow_extra_axioms):
     with vlib.Lock("lake"):
         rc, o = vlib.sh(["lake", "env", "lean", af], cwd=vlib.LEAN, timeout=1800)
     found = {}
-    for mm in re.finditer(r"AUDIT (\S+) axioms=\[(.*?)\]", o):
+    for mm in re.finditer(r"AUDIT (\S+) axioms=\[(.*?)\]", o, re.S):        # (long axiom lists are wrapped over several lines)
         found[mm.group(1)] = [a.strip() for a in mm.group(2).split(",") if a.strip()]
     if rc != 0 or not found:
         ctx.proof["obligations"] += 1
@@ -311,7 +311,7 @@ def prove_many(ctx, modules, required, allow_extra_axioms):
     if ctx.tier == "thorough":
         for m in modules:
             with vlib.Lock("lake"):
-                rc, o = vlib.sh(["lake", "env", "leanchecker", m], cwd=vlib.LEAN, timeout=3000)
+                rc, o = vlib.sh(["lake", "env", "leanchecker", m], cwd=vlib.LEAN, timeout=9000)
             ctx.notes.append("leanchecker %s rc=%d" % (m, rc))
             if rc != 0:
                 ctx.proof["broken"].append({"theorem": m, "why": "leanchecker rejected", "log": o[-2000:]})
@@ -489,10 +489,10 @@ def selfasm(ctx, B, h, dist):
         return
     out = b["exe"] + ".own"
     try:
-        p = subprocess.run([h, "elf", b["asm"], out], capture_output=True, text=True, timeout=20)
+        p = subprocess.run([h, "elf", b["asm"], out], capture_output=True, text=True, timeout=60)
         st, msg = ("ok" if p.returncode == 0 else "error"), p.stderr[-200:]
     except subprocess.TimeoutExpired:
-        st, msg = "hang", "asm.AssembleFile does not return within 20 s"
+        st, msg = "hang", "asm.AssembleFile does not return within 60 s"
     dist["selfasm"] = st
     if st == "hang":
         ctx.violation("selfasm:parser-hangs", "asm.AssembleFile (the assembler used by `wa native build` for x64 on hosts other than linux/amd64) never returns on "
